@@ -25,6 +25,17 @@ CHECKS["C05"] = dict(
     note="Trusted: TLC, W1/W2 doubles, the instance-level wrapper around replace_status_block_segment, STATQ decoding by the harness. Steps are taken only while no transfer is in flight (a refresh overlapping a spa-side change is a protocol-level race, not a library property).",
     design="§4 C05")
 
+CHECKS["C02"] = dict(
+    technique="BitField.tla operators as oracle: laws model-checked by TLC on the complete sub-field/word/value domain; every shipped item driven through both real write paths and each record judged by TLC (C02_Judge)",
+    text="Read/Write/Outside of bit fields inside 1/2-byte big-endian words are specified in BitField.tla; TLC checks read-back, isolation and neighbour laws for every (bit position, mask) shape x word content x value (quick: 1024 word contents incl. all 1-byte ones; thorough: all 65536). The harness extracts every item of all 151 config/log modules through real accessor objects and runs the sync and async write paths; TLC judges each record: refusal for read-only items, emitted (pos,len,word) = Write(existing, shape, value), mask derivation from MaxItems, applied block, read-back, other bits/bytes/items unchanged.",
+    note="Trusted: TLC, extraction of shapes through accessor attributes, application of a device write as a big-endian word at (pos,len). Temperature items are judged in C14. Known findings: three ill-formed table entries (D12).",
+    design="§4 C02")
+CHECKS["C14"] = dict(
+    technique="temperature arithmetic of BitField.tla on exact rationals: laws model-checked on all 65536 raws x 2 units; records of the real temperature accessor / water heater (all raws, both write paths, decimals, units, operation ladder) judged by TLC (C14_Judge)",
+    text="Shown/Stored/WithinOneStep and the operation ladder are specified in TLA+; C14_MC checks Stored(Shown(raw)) = raw, monotonicity and hundredth-degree behaviour exhaustively. The real GeckoTempStructAccessor is read for every raw word in both units, the shown value written back through both write paths (must reproduce the raw word), every hundredth of a degree in and around the allowed range written (within one device step, order preserved), and GeckoWaterHeater's unit symbol, limits and current_operation evaluated for every flag/temperature combination on real table pairs of every platform; TLC judges every record.",
+    note="Trusted: TLC, Fraction(x).limit_denominator(180) as the float->rational projection, symbol tags. Platforms without TempUnits/heater items cannot build a heater (C11 finding) and contribute no records.",
+    design="§4 C14")
+
 NOT_YET = {}
 
 
